@@ -170,11 +170,7 @@ where
 		if context.calculated_excess.is_some() {
 			// self-send: the stored context is the merged one written by
 			// `process_invoice_tx`, which has already accounted for every input and
-			// output; only the invoice side's excess key is left
-			let mut key_only = context.clone();
-			key_only.input_ids.clear();
-			key_only.output_ids.clear();
-			sl.adjust_offset(&w.keychain(keychain_mask)?, &key_only)?;
+			// output and for both excess keys: the offset is final
 		} else {
 			sl.adjust_offset(&w.keychain(keychain_mask)?, &context)?;
 		}
